@@ -115,13 +115,6 @@ class FrameReader:
         header, buffer = await self._read_header()
         frame_length, recipient, sender, econet_type, econet_version = header
 
-        if recipient not in (DeviceType.ECONET, DeviceType.ALL):
-            # Not an intended recipient, ignore the frame.
-            return None
-
-        if not is_known_device_type(sender):
-            raise UnknownDeviceError(f"Unknown sender type ({sender})")
-
         if frame_length > MAX_FRAME_LENGTH or frame_length < MIN_FRAME_LENGTH:
             raise ReadError(f"Unexpected frame length ({frame_length})")
 
@@ -131,6 +124,13 @@ class FrameReader:
             raise ReadError(
                 f"Got incomplete frame, while trying to read {e.expected} bytes"
             ) from e
+
+        if recipient not in (DeviceType.ECONET, DeviceType.ALL):
+            # Not an intended recipient, ignore the frame.
+            return None
+
+        if not is_known_device_type(sender):
+            raise UnknownDeviceError(f"Unknown sender type ({sender})")
 
         if (checksum := bcc(buffer[:-2])) != buffer[-2]:
             raise ChecksumError(
